@@ -28,6 +28,8 @@ pub fn lonlat_to_cell(lonlat: LonLat, resolution: i32) -> Result<u64, String> {
     if resolution < FIRST_HILBERT_RESOLUTION {
         // For low resolutions there is no Hilbert curve, so we can just return as the result is exact
         let estimate = lonlat_to_estimate(lonlat, resolution)?;
+        #[cfg(feature = "verif")]
+        verif::set_last_lookup(0, 0, 1);
         return serialize(&estimate);
     }
 
@@ -49,8 +51,14 @@ pub fn lonlat_to_cell(lonlat: LonLat, resolution: i32) -> Result<u64, String> {
     let mut estimate_set = HashSet::new();
     let mut unique_estimates = Vec::new();
     let mut cells = Vec::new();
+    #[cfg(feature = "verif")]
+    let mut verif_sample_index: u8 = 0;
 
     for sample in samples {
+        #[cfg(feature = "verif")]
+        {
+            verif_sample_index = verif_sample_index.wrapping_add(1);
+        }
         let estimate = lonlat_to_estimate(sample, resolution)?;
         let estimate_key = serialize(&estimate)?;
         if !estimate_set.contains(&estimate_key) {
@@ -60,6 +68,12 @@ pub fn lonlat_to_cell(lonlat: LonLat, resolution: i32) -> Result<u64, String> {
             // Check if we have a hit, storing distance if not
             let distance = a5cell_contains_point(&estimate, lonlat)?;
             if distance > 0.0 {
+                #[cfg(feature = "verif")]
+                verif::set_last_lookup(
+                    if verif_sample_index == 1 { 1 } else { 2 },
+                    verif_sample_index - 1,
+                    unique_estimates.len() as u8,
+                );
                 return serialize(&estimate);
             } else {
                 cells.push((estimate, distance));
@@ -67,6 +81,8 @@ pub fn lonlat_to_cell(lonlat: LonLat, resolution: i32) -> Result<u64, String> {
         }
     }
 
+    #[cfg(feature = "verif")]
+    verif::set_last_lookup(3, verif_sample_index, unique_estimates.len() as u8);
     // As fallback, sort cells by distance and use the closest one
     cells.sort_by(|a, b| b.1.partial_cmp(&a.1).unwrap_or(std::cmp::Ordering::Equal));
     serialize(&cells[0].0)
@@ -253,4 +269,26 @@ pub fn a5cell_contains_point(cell: &A5Cell, point: LonLat) -> Result<f64, String
     };
 
     Ok(containment_result)
+}
+
+/// Read-only observation hook for external runtime monitors (feature `verif`, off by default):
+/// which branch of `lonlat_to_cell` produced the last answer on this thread.
+#[cfg(feature = "verif")]
+pub mod verif {
+    use std::cell::Cell;
+
+    thread_local! {
+        static LAST_LOOKUP: Cell<(u8, u8, u8)> = const { Cell::new((255, 0, 0)) };
+    }
+
+    pub(super) fn set_last_lookup(branch: u8, sample_index: u8, estimates_tried: u8) {
+        LAST_LOOKUP.with(|c| c.set((branch, sample_index, estimates_tried)));
+    }
+
+    /// (branch, sample index, distinct estimates tried) of the last `lonlat_to_cell` on this thread.
+    /// branch: 0 = low resolution exact path, 1 = first estimate, 2 = probe sample, 3 = nearest-cell fallback,
+    /// 255 = no lookup yet
+    pub fn last_lookup() -> (u8, u8, u8) {
+        LAST_LOOKUP.with(|c| c.get())
+    }
 }
